@@ -1,10 +1,11 @@
 // govc:pkg .
-// govc:bound 14 analytic SELECT items x 40 random feeds of 12 rows over 3 partitions (NULL values included): each partition's output sequence interleaved vs. fed alone, EmitSync vs. Emit + synchronous sink, and lag / acc_sum / acc_count / acc_max / latest against their definitions
+// govc:bound 14 analytic SELECT items x 40 (thorough: 160) random feeds of 12 rows over 3 partitions (NULL values included): each partition's output sequence interleaved vs. fed alone, EmitSync vs. Emit + synchronous sink, and lag / acc_sum / acc_count / acc_max / latest against their definitions
 // Bounded stand-in (NOT a proof) for the wiring above the state machines under contract (partition key derivation, engine
 // dispatch, projection): partitions must not influence each other and both API paths must agree.
 package streamsql
 
 import (
+	"os"
 	"fmt"
 	"math/rand"
 	"reflect"
@@ -153,7 +154,11 @@ func TestGovcBounded_analytic_partitions(t *testing.T) {
 	}
 	for _, it := range govcAnaItems() {
 		sql := "SELECT id, k, " + it.sql + " OVER (PARTITION BY k) AS f FROM stream"
-		for feed := 0; feed < 40; feed++ {
+		nfeeds := 40
+		if os.Getenv("GOVC_BOUND") == "thorough" {
+			nfeeds = 160
+		}
+		for feed := 0; feed < nfeeds; feed++ {
 			cases++
 			var rows []map[string]any
 			for i := 0; i < 12; i++ {
